@@ -123,6 +123,7 @@ pub type Finding = (&'static str, String);
 pub struct Obs {
     pub views: u64,
     pub spanned_views: u64,
+    pub subset_views: u64,
     pub dijkstra_sources: u64,
     pub dijkstra_targets: u64,
     pub edges_compared: u64,
@@ -317,6 +318,36 @@ pub fn execute(case: &Case) -> (Vec<Finding>, Obs) {
             }
         }
 
+        // ---- views over a subset of the modules (from_modules): exactly the listed modules, exactly the edges whose
+        // two ends are both listed (a chain that ends outside the list is no edge of the view)
+        for k in 0..3usize {
+            if n < 2 {
+                break;
+            }
+            let keep = |i: usize| (i + k) % 3 != 0;
+            let mut listed: Vec<usize> = (0..n).filter(|i| keep(*i)).collect();
+            if k == 2 {
+                listed.reverse();
+            }
+            let refs: Vec<ModuleRef> = listed.iter().map(|i| sim.get(&case.modules[*i].as_str().into()).expect("module exists")).collect();
+            let t = Topology::from_modules(&refs);
+            obs.subset_views += 1;
+            let want_nodes: BTreeMap<String, usize> = listed.iter().map(|i| (case.modules[*i].clone(), 1)).collect();
+            if node_multiset(&t) != want_nodes {
+                f.push(("subset-nodes", format!("from_modules({:?}) has nodes {:?}", want_nodes.keys().collect::<Vec<_>>(), node_multiset(&t))));
+                continue;
+            }
+            let want = reference.edge_set(&keep, &all_e);
+            let got = edge_multiset(&t);
+            obs.edges_compared += got.values().sum::<usize>() as u64;
+            if got != want {
+                f.push(("subset-edges", format!("from_modules({:?}): edges differ from the gate graph restricted to these modules: {}", want_nodes.keys().collect::<Vec<_>>(), diff(&got, &want))));
+            }
+            if let Some(e) = edge_gate_owner_consistent(&t) {
+                f.push(("edge-attachment", format!("from_modules view: {e}")));
+            }
+        }
+
         // ---- spanned views from every root
         for root in 0..n {
             let module = sim.get(&case.modules[root].as_str().into()).expect("module exists");
@@ -446,6 +477,7 @@ pub fn cmd(args: &Args) -> Report {
         rep.eval();
         rep.count("global_views_checked", obs.views);
         rep.count("spanned_views_checked", obs.spanned_views);
+        rep.count("subset_views_checked", obs.subset_views);
         rep.count("filtered_views_checked", obs.filtered_views);
         rep.count("dijkstra_sources", obs.dijkstra_sources);
         rep.count("dijkstra_targets_checked", obs.dijkstra_targets);
